@@ -32,11 +32,12 @@ theorem tie_guards (isLoopThread calling looping : Bool) :
 
 /-- the statement order the model takes for granted: append under the lock before the wake-up test; the batch is
 swapped out (queue left empty) under the lock with `callingPendingFunctors_` set before and cleared after the run;
-every iteration ends with a drain; one more drain follows the `while`; `looping_` brackets the `while`; `wakeup()`
-writes a whole non-zero counter value to the eventfd and `handleRead()` reads it back -/
+every iteration ends with a drain; after the `while` the queue is drained **until it is empty**
+(`do { doPendingFunctors(); } while (queueSize() > 0);`); `looping_` brackets the `while`; `wakeup()` writes a whole
+non-zero counter value to the eventfd and `handleRead()` reads it back -/
 theorem tie_shape :
     appendUnderLock = true ∧ drainSwaps = true ∧ callingSetBeforeSwap = true ∧ callingResetAfterRun = true ∧
-    drainEachIteration = true ∧ finalDrain = true ∧ loopingBracket = true ∧
+    drainEachIteration = true ∧ finalDrain = .untilEmpty ∧ loopingBracket = true ∧
     wakeupWritesOne = true ∧ handleReadDrains = true :=
   ⟨shape_tie.2.2.2, drainSwaps_tie, shape_tie.2.2.1, callingResetAfterRun_tie, shape_tie.1, finalDrain_tie, shape_tie.2.1,
    eventfd_tie.1, eventfd_tie.2⟩
@@ -61,8 +62,8 @@ theorem drain_takes_oldest (s : St) (h : Reachable s) (t : TaskId) (r : List Tas
     (stepLoop s).out = some (.exec t) ∧ (stepLoop s).executed = s.executed ++ [t] ∧
     s.appendOrder[s.executed.length]? = some t := by
   refine ⟨?_, ?_, ?_⟩
-  · unfold stepLoop; simp [hp, hb, hbatch]
-  · unfold stepLoop; simp [hp, hb, hbatch]
+  · unfold stepLoop stepLoopFD; simp [hp, hb, hbatch]
+  · unfold stepLoop stepLoopFD; simp [hp, hb, hbatch]
   · rw [once_fifo s h, hbatch]; simp
 
 /-- a batch is taken only by the swap and holds exactly what was queued at that moment; outside a drain there is
@@ -145,17 +146,92 @@ theorem asleep_means_queue_empty (s : St) (h : Reachable s) (hp : s.phase = .pol
     obtain ⟨k, hk⟩ := prompt s h hp (by simp [hq])
     simp [hs k] at hk
 
-/-! ## as long as the loop keeps running -/
+/-! ## as long as the loop keeps running — and when it stops -/
 
-/-- **drain_on_exit**: when `loop()` has returned, every functor that was appended before the first `quit()` call
-stored its flag has been started (the drain after the `while`) -/
+/-- after the `while`, the drain is repeated as long as anything is queued: at the end of a pass of the final drain
+with a non-empty queue the loop thread does not return but starts another pass (`callingPendingFunctors_` set again) -/
+theorem final_drain_repeats (s : St) (hp : s.phase = .draining) (hf : s.final = true) (hb : busy s = false)
+    (hbatch : s.batch = []) (hq : s.pending ≠ []) :
+    (stepLoop s).phase = .preSwap ∧ (stepLoop s).final = true ∧ (stepLoop s).calling = true ∧
+    (stepLoop s).pending = s.pending ∧ (stepLoop s).out = some (.point "doPendingFunctors:beforeSwap") := by
+  have := finalDrain_tie
+  have hne : s.pending.isEmpty = false := by cases hpd : s.pending <;> simp_all
+  unfold stepLoop stepLoopFD; simp [hp, hf, hb, hbatch, this, hne]
+
+/-- `loop()` returns only at a test that finds the queue empty, and `retMark` records how many functors had been
+appended at that test -/
+theorem returns_only_with_empty_queue (s : St) (hp : s.phase = .draining) (hr : (stepLoop s).phase = .returned) :
+    s.pending = [] ∧ s.batch = [] ∧ (stepLoop s).retMark = some s.appendOrder.length := by
+  have := finalDrain_tie
+  revert hr
+  unfold stepLoop stepLoopFD
+  simp only [hp]
+  split
+  · intro hr
+    have : (runTop s).phase = s.phase := by unfold runTop; repeat' split
+                                            all_goals rfl
+    rw [this, hp] at hr; cases hr
+  · split
+    · intro hr; simp at hr
+    · split
+      · split
+        · intro hr; simp at hr
+        · rename_i hbt hfin hne
+          intro _
+          refine ⟨?_, hbt, by simp [leaveLoop]⟩
+          cases hpd : s.pending with
+          | nil => rfl
+          | cons a l => simp_all
+      · intro hr; simp at hr
+
+/-- **drain_on_exit**: when `loop()` has returned, **every functor that was appended before it returned** — by the
+loop thread itself (a functor run by the final drain that queues another one), by a foreign thread, before or after
+the `quit()` call — has been started, in order: `executed` is exactly the first `m` appends, where `m = retMark` is
+the number of appends at the loop's last test of the queue (`returns_only_with_empty_queue`).  What is still queued
+was appended after that test — necessarily by another thread, the loop thread takes no step after returning — and
+is never run.  In particular everything queued before the first `quit()` (`quitMark`) has run. -/
 theorem drain_on_exit (s : St) (h : Reachable s) (hp : s.phase = .returned ∨ s.phase = .dead) :
-    ∃ n, s.quitMark = some n ∧ n ≤ s.executed.length ∧ s.executed.take n = s.appendOrder.take n := by
+    ∃ m n, s.retMark = some m ∧ s.quitMark = some n ∧ n ≤ m ∧
+      s.executed = s.appendOrder.take m ∧ s.pending = s.appendOrder.drop m ∧ s.batch = [] := by
   have hx := reachable_invariant (P := fun s => FifoInv s ∧ ExitInv s)
     (fun a b c d e => ⟨init_fifo a b c d e, init_exit a b c d e⟩) (fun _ k h => step_exit k h) h
-  obtain ⟨n, hn, hle⟩ := hx.2.done (by rcases hp with h | h <;> simp [h, exited])
-  refine ⟨n, hn, hle, ?_⟩
-  rw [hx.1.order, List.append_assoc, List.take_append_of_le_length hle]
+  have hex : exited s.phase = true := by rcases hp with h | h <;> simp [h, exited]
+  obtain ⟨n, hn, hle⟩ := hx.2.done hex
+  have hb : s.batch = [] := hx.1.batchNil (by rcases hp with h | h <;> simp [h])
+  refine ⟨s.executed.length, n, hx.2.ret hex, hn, hle, ?_, ?_, hb⟩
+  · rw [hx.1.order, hb]; simp
+  · rw [hx.1.order, hb]; simp
+
+/-- **negation witness for the earlier shape of the code** (one `doPendingFunctors()` after the `while`, before
+6f04cfe): the owner queues task 1 and calls `quit()` before `loop()`; task 1, run by the final drain, queues task 2.
+With a single final drain `loop()` returns with task 2 queued and never run; the code as it is runs both. -/
+theorem drain_once_strands_witness :
+    let i := init false false (fun t => if t = 1 then [.queue 2] else []) [.queue 1, .quit] (fun _ => [])
+    let sched := List.replicate 24 0
+    ((runFD .once i sched).phase = .returned ∧ (runFD .once i sched).pending = [2] ∧
+      (runFD .once i sched).executed = [1]) ∧
+    ((run i sched).phase = .returned ∧ (run i sched).pending = [] ∧ (run i sched).executed = [1, 2]) := by
+  decide +kernel
+
+/-- … and for the shape before 8a53a2a (no drain after the `while`): a functor queued behind the iteration's swap
+and followed by `quit()` is never run -/
+theorem drain_none_strands_witness :
+    let i := init false false (fun _ => []) [.queue 1, .quit] (fun _ => [])
+    let sched := List.replicate 12 0
+    ((runFD .none i sched).phase = .returned ∧ (runFD .none i sched).pending = [1]) ∧
+    ((run i sched).phase = .returned ∧ (run i sched).pending = [] ∧ (run i sched).executed = [1]) := by
+  decide +kernel
+
+/-- **limitation (termination)**: the drain after the `while` ends only when a test finds the queue empty.  A functor
+that always queues itself again keeps `loop()` from returning after `quit()` — here task 1 re-queues itself: after
+200 steps of the loop thread the loop has left its `while` long ago and is still draining.  Every statement of this
+file and of C05 about `loop()` *returning* is therefore a statement about states (`phase = returned`), not a
+promise that such a state is reached; it is reached whenever the functors eventually stop queueing. -/
+theorem requeue_forever_never_returns_witness :
+    let s := run (init false false (fun t => if t = 1 then [.queue 1] else []) [.queue 1, .quit] (fun _ => []))
+                 (List.replicate 200 0)
+    s.final = true ∧ s.phase ≠ .returned ∧ s.qreq = true ∧ 20 ≤ s.executed.length := by
+  decide +kernel
 
 /-! ## non-vacuity -/
 
